@@ -257,6 +257,14 @@ func (l *FSLayout) DumpFor(r *core.Rand) *Dump {
 	var gs []Goroutine
 	for _, g := range d.Gs {
 		if len(g.Frames) > 0 {
+			// "created by" frames: under a detected root, under none, or absent
+			switch r.Intn(3) {
+			case 0:
+				f := l.Frames[r.Intn(len(l.Frames))]
+				g.Creator = &Creator{Sym: Sym{Pkg: f.Pkg, Name: "spawn"}, File: f.Remote, Line: 77, PCOff: 0x20}
+			case 1:
+				g.Creator = &Creator{Sym: Sym{Pkg: "nowhere/sched", Name: "spawn"}, File: "/nowhere/else/sched/sched.go", Line: 78, PCOff: 0x20}
+			}
 			gs = append(gs, g)
 		}
 	}
